@@ -22,6 +22,7 @@ type pairProg struct {
 	src    string
 	state  *stateProg
 	labels bool
+	mask   bool // corpus: mask the wall-clock stamp of Log:: lines
 
 	once     sync.Once
 	base     *observation // nil: baseline could not be taken
@@ -74,6 +75,10 @@ func splitLabelsOrdered(out string) ([]string, map[string]string, string) {
 
 func observe(p *pairProg, stdout, stderr string) *observation {
 	o := &observation{val: map[string]string{}}
+	if p.mask {
+		stdout = stampRe.ReplaceAllString(stdout, "<STAMP>")
+		stderr = stampRe.ReplaceAllString(stderr, "<STAMP>")
+	}
 	if p.labels {
 		ord, m, rest := splitLabelsOrdered(stdout)
 		o.order = append(o.order, ord...)
@@ -99,18 +104,22 @@ func runWorker(a, b string) (stdout, stderr string, note string) {
 		argv = append(argv, a)
 	}
 	argv = append(argv, b)
-	cwd, err := os.MkdirTemp(filepath.Join(env.Scratch, "cwd"), "w")
-	if err != nil {
+	// the working directory is a function of B alone (its name can reach diagnostics); the
+	// workload writes no files, so concurrent runs may share it
+	cwd := filepath.Join(env.Scratch, "cwd", "w-"+lib.Hash(b))
+	if err := os.MkdirAll(cwd, 0o755); err != nil {
 		return "", "", "cannot create cwd"
 	}
-	defer os.RemoveAll(cwd)
-	r := lib.RunProc(lib.ProcSpec{Argv: argv, Dir: cwd, Timeout: 180 * time.Second})
+	r := lib.RunProc(lib.ProcSpec{Argv: argv, Dir: cwd, Timeout: 180 * time.Second, MaxOut: 64 << 20})
 	countEval(1)
 	if r.Err != nil {
 		return "", "", "cannot start worker: " + r.Err.Error()
 	}
 	if r.TimedOut {
 		return "", "", "watchdog fired"
+	}
+	if len(r.Stdout) >= 64<<20 || len(r.Stderr) >= 64<<20 {
+		return "", "", "output exceeds the capture limit"
 	}
 	i := strings.Index(r.Stdout, workerMarker)
 	j := strings.Index(r.Stderr, workerMarker)
@@ -180,6 +189,23 @@ func runPairs(e *lib.Env, mods []stateMod, cal *calibration, statePs []*statePro
 		}
 	}
 	ps.extra["programs_excluded_because_their_own_runs_differ"] = unstablePrograms
+	// every stable program also runs after itself (same program twice on two fresh VMs)
+	var selfPool []*pairProg
+	selfPool = append(selfPool, statePool...)
+	selfPool = append(selfPool, otherPool...)
+	for _, p := range progs {
+		switch p.class {
+		case "lookup", "identity", "diag", "corpus":
+			if !p.stable {
+				continue
+			}
+			src := p.src
+			if src == "" {
+				src = p.name
+			}
+			selfPool = append(selfPool, &pairProg{name: p.name, class: p.class, path: p.path, src: src, labels: p.labels, mask: p.mask})
+		}
+	}
 	type pair struct{ a, b *pairProg }
 	var pairs []pair
 	r := e.Rand("pairs")
@@ -299,7 +325,17 @@ func runPairs(e *lib.Env, mods []stateMod, cal *calibration, statePs []*statePro
 			if a.state != nil && b.state != nil {
 				key = "leak:" + culprit + "->" + obsName
 			} else {
-				key = "leak:pair:" + a.class + "->" + b.class + ":" + lib.Hash(a.src, b.src)
+				key = "leak:pair:" + b.class + ":" + obsChannel(b, id) + ":" + lib.Hash(a.src, b.src)
+				if b.class == "order" {
+					// labelled observation of an order program: the sink names the failing thing
+					key = "leak:pair:order:" + obsChannel(b, id)
+				}
+				if a == b {
+					key = "leak:self:" + a.class + ":" + lib.Hash(a.src)
+					if a.class == "corpus" {
+						key = "leak:self:corpus:" + a.name
+					}
+				}
 			}
 			ps.mu.Lock()
 			leaksByKey[key]++
@@ -418,6 +454,8 @@ func runPairs(e *lib.Env, mods []stateMod, cal *calibration, statePs []*statePro
 		checkOrdered(pairs[i].b, pairs[i].a)
 	})
 
+	lib.ParallelMap(len(selfPool), 0, func(i int) { checkOrdered(selfPool[i], selfPool[i]) })
+	ps.extra["programs_run_after_themselves"] = len(selfPool)
 	ps.extra["seeded_pairs_state"] = nStatePairs
 	ps.extra["seeded_pairs_order_and_gen"] = len(pairs) - nStatePairs
 	ps.extra["counts"] = counts
@@ -432,6 +470,17 @@ func runPairs(e *lib.Env, mods []stateMod, cal *calibration, statePs []*statePro
 	}
 	ps.extra["leak_observations_by_key"] = lk
 	return ps
+}
+
+// obsChannel names an observation of a non-state program: the sink for order programs
+// (label without the block index), the label or stream otherwise.
+func obsChannel(b *pairProg, id string) string {
+	if b.class == "order" {
+		if i := strings.IndexByte(id, '.'); i > 0 && !strings.HasPrefix(id, "@") {
+			return id[i+1:]
+		}
+	}
+	return id
 }
 
 func joinObs(o *observation) string {
